@@ -280,22 +280,34 @@ EDGE_FINAL = {"buffer": ("update_final_buffer_avg_content", "time_averaged_num_o
               "sconv": ("update_final_conveyor_avg_content", "time_averaged_num_of_items_in_conveyor")}
 
 
-def c18_all(o, T):
+def edge_report(o, T, when):
+    """Ask every edge for its time-averaged occupancy at T and compare it with the integral of the observed occupancy.  The edge
+    finalisers stamp their own bookkeeping, so a report may be repeated and the simulation may go on after it."""
     run = o.run
+    o.on_instant_end()
     for eid, er in o.erec.items():
         edge = run.edges[eid]
         o.integrate(er, T)
         fn, key = EDGE_FINAL[er.type]
-        try:
-            getattr(edge, fn)(T)
-        except Exception as e:
-            o.violate("C18", "edge-finalisation-crash:" + type(e).__name__, o.elabel(eid), f"{eid}.{fn}({T}) raised {e!r}")
-            continue
-        got = edge.stats[key]
         exp = float(er.integ / Fraction(T)) if T > 0 else 0.0
-        if not close(got, exp):
-            o.violate("C18", "edge-time-average", o.elabel(eid), f"{eid}: time-averaged occupancy reported {got!r}, integral of observed occupancy / T = {exp!r}")
-        o.probe("c18_edge_integral_checked")
+        for rep in ("", ",asked-twice"):
+            try:
+                getattr(edge, fn)(T)
+            except Exception as e:
+                o.violate("C18", "edge-finalisation-crash:" + type(e).__name__, o.elabel(eid), f"{eid}.{fn}({T}) raised {e!r}")
+                break
+            got = edge.stats[key]
+            if not close(got, exp):
+                extra = ("" if when == "final" and not rep else f" ({when} report{rep})")
+                o.violate("C18", "edge-time-average", o.elabel(eid) + ("" if when == "final" else ",mid-run-report") + rep,
+                          f"{eid}: time-averaged occupancy reported {got!r}, integral of observed occupancy / T = {exp!r}{extra}")
+                break
+        o.probe("c18_edge_integral_checked" if when == "final" else "c18_edge_midrun_report_checked")
+
+
+def c18_all(o, T):
+    run = o.run
+    edge_report(o, T, "final" if o.case.get("edge_report_at") is None else "final-after-mid-run")
     for nid, nr in o.nrec.items():
         node = run.nodes[nid]
         st = getattr(node, "stats", {})
@@ -492,6 +504,9 @@ def c17_source_activity(o, nid, nr, node, T):
     tprev = 0.0
     k = 0
     n_gen = node.stats["num_item_generated"]
+    if vals is not None and len(vals) < n_gen:
+        o.probe("c17_source_fewer_draws_than_items")     # the library consulted the inter-arrival source less often than it generated items:
+        return                                           # the generation instants cannot be reconstructed (C08/C18 judge the draws themselves)
     for i in range(n_gen):
         v = vals[i] if vals is not None else const_of(spec)
         g = tprev + v
